@@ -178,6 +178,25 @@ def micro_cases(ctx, rng, tier):
     return out
 
 
+def polar_cases(rng, tier):
+    """small polygons 10 to 150 cell edges away from a pole at resolutions 5-11 (the longitude extent of a cell's bounding
+    box is its edge length divided by cos(latitude), which blows up here), none containing the pole"""
+    out = []
+    for k in range(10 if tier == "quick" else 80):
+        # distance from the pole log-uniform between 400 m and 130 km; resolution such that it is 6..400 cell edges
+        colat = 10 ** rng.uniform(-4.2, -1.7)
+        res = rng.choice([r for r in range(16) if 6 <= colat / EDGE[r] <= 400])
+        sgn = rng.choice([1, -1])
+        lat = sgn * (math.pi / 2 - colat)
+        lng = rng.uniform(-3.0, 3.0)
+        R = rng.uniform(1.5, 5) * EDGE[res]
+        poly = [(lat + R * math.sin(a_), lng + R * math.cos(a_) / math.cos(lat)) for a_ in
+                [2 * math.pi * i / 5 + rng.uniform(-0.3, 0.3) for i in range(5)]]
+        if max(abs(p_[0]) for p_ in poly) < math.pi / 2 - 4 * EDGE[res]:
+            out.append(([[(la, gen.norm_lng(ln)) for la, ln in poly]], lat, gen.norm_lng(lng), R, res, "near-pole"))
+    return out
+
+
 def streams(rng, tier):
     ops = [f"polyflags {f}" for f in list(range(0, 40)) + [255, 256, 65536, 2 ** 31, 2 ** 32 - 1, 16, 17, 18, 19]]
     return [("flags", ops)]
@@ -195,7 +214,11 @@ def cell_geom(ctx, cells, ref_lng, fix):
         cl = pu.shift_near(fix(c[1]), ref_lng)
         bd2 = [(la, pu.shift_near(fix(ln), cl)) for la, ln in bd]
         # pole cells: boundary longitudes wrap all the way round
-        polar = max(abs(la) for la, _ in bd) > 1.55 or (max(x for _, x in bd2) - min(x for _, x in bd2) > 2.0)
+        # excluded: cells that contain a pole or come within three cell edges of one (their edges are far from straight
+        # in lat/lng space), recognised by a vertex that close to the pole or by a boundary spanning > 2 rad of longitude
+        res_ = (h >> 52) & 15
+        polar = (math.pi / 2 - max(abs(la) for la, _ in bd) < 3 * EDGE[res_]) or \
+                (max(x for _, x in bd2) - min(x for _, x in bd2) > 2.0)
         G[h] = ((c[0], cl), bd2, polar)
     return G
 
@@ -207,7 +230,8 @@ def evaluate(ctx, rng, tier, focus, budget, broken):
     nclass = {"full_must": 0, "full_mustnot": 0, "over_must": 0, "over_mustnot": 0}
     nprims = [0]
     ntrav = [0]
-    for (loops, lat, lng, radius, res, kind) in _cases(rng, tier) + incell_cases(ctx, rng, tier) + micro_cases(ctx, rng, tier):
+    skipped_big = [0]
+    for (loops, lat, lng, radius, res, kind) in _cases(rng, tier) + incell_cases(ctx, rng, tier) + micro_cases(ctx, rng, tier) + polar_cases(rng, tier):
         ps = gen.poly_str(loops)
         cand = candidates(ctx, lat, lng, radius, res, None)
         if cand is None or len(cand) > 4000:
@@ -223,6 +247,11 @@ def evaluate(ctx, rng, tier, focus, budget, broken):
         bad = False
         for m in (0, 1, 2, 3):
             a = out[m]
+            if a.startswith("skip-too-large"):
+                # the harness does not allocate more than 2e7 slots (maxPolygonToCellsSizeExperimental near a pole)
+                skipped_big[0] += 1
+                bad = True
+                continue
             if not ok(a):
                 viol_.append(viol("polygonToCellsExperimental failed on a well-formed polygon", ops[m], "success", a)); bad = True; continue
             t = a.split()
@@ -342,7 +371,7 @@ def evaluate(ctx, rng, tier, focus, budget, broken):
             break
     return {"evaluations": nops, "violations": viol_[:20],
             "distinct": [f"{k}:{i}" for k, n in stats.items() for i in range(n)],
-            "coverage": {"polygons": sum(stats.values()), "by_kind": stats, "cell_classifications": nclass,
+            "coverage": {"polygons": sum(stats.values()), "by_kind": stats, "skipped_size_estimate_above_harness_limit": skipped_big[0], "cell_classifications": nclass,
                          "decision_formula_evaluations": nprims[0],
                          "traversal_model_runs": ntrav[0]},
             "samples": [{"op": "polyfillx <res> <mode> 0 <polygon>", "note": "see coverage"}]}
